@@ -246,6 +246,22 @@ def check(P, R):
                 and len(e.args) == 1 and isinstance(e.args[0], (ast.Tuple, ast.List)):
             for x in e.args[0].elts:            # b''.join((a, b, c, d)) is a + b + c + d
                 flat(x)
+        elif isinstance(e, ast.BinOp) and isinstance(e.op, ast.Mod) and isinstance(e.left, ast.Constant) and isinstance(e.left.value, (bytes, str)) \
+                and isinstance(e.right, ast.Tuple):
+            # b'!%b?%b' % (sig, msg): the literal pieces and the substituted values, in order (plain %b / %s fields only)
+            import re as _re
+            fmt = e.left.value
+            pat = b'%[bs]' if isinstance(fmt, bytes) else '%s'
+            pieces = _re.split(pat, fmt)
+            pct = b'%' if isinstance(fmt, bytes) else '%'
+            if len(pieces) == len(e.right.elts) + 1 and not any(pct in p_ for p_ in pieces):
+                for i_, p_ in enumerate(pieces):
+                    if p_:
+                        parts.append(ast.copy_location(ast.Constant(value=p_), e))
+                    if i_ < len(e.right.elts):
+                        flat(e.right.elts[i_])
+            else:
+                parts.append(e)
         else:
             parts.append(e)
     flat(r.value)
